@@ -25,6 +25,15 @@ CHECKS = {
  "C12": dict(engine="statespace", technique="exhaustive enumeration of operation histories (stateright BFS, no state merging) on real local metrics vs. pending/flushed ledger; deeper merged-state BFS in addition",
    text="Every history up to depth 5 (vector models 4; thorough 6/5) over the operation menus of six local-metric models is replayed on fresh real objects and compared with a ledger after every step; a second BFS merges equal ledger states and reaches depth 7.",
    note="<=3 live local handles, 2 keys, fixed update amounts (incl. a negative observation)", ref="6 C12"),
+ "C01": dict(engine="vsched", technique="stateless exhaustive exploration of thread interleavings (sleep sets, unbounded) of the real code under a controlled scheduler + Wing-Gong linearizability check",
+   text="For 4 counter flavours, all unordered pairs of <=2-operation programs and all triples of 1-operation programs over {inc_by, get, reset, local flush, collect, local clone+flush,...} are run under the vsched scheduler on every interleaving of their atomic/lock operations (sleep-set reduced, no preemption bound); each execution's call/return history incl. quiescent reads must be linearizable w.r.t. a sequential counter.",
+   note="sequentially consistent interleavings (exact for a single atomic cell); <=3 threads, <=2 ops per thread", ref="6 C01"),
+ "C11": dict(engine="vsched", technique="stateless exhaustive exploration of thread interleavings (sleep sets, unbounded) of the real code under a controlled scheduler + Wing-Gong linearizability check",
+   text="Same engine as C01 over 4 gauge flavours and the alphabet {add, sub, inc, dec, set, get, collect}: every interleaving of all program pairs (<=2 ops) and 1-op triples; histories must be linearizable w.r.t. a sequential gauge.",
+   note="sequentially consistent interleavings (exact for a single atomic cell); <=3 threads, <=2 ops per thread", ref="6 C11"),
+ "C18": dict(engine="statespace", technique="exhaustive enumeration of operation histories (stateright BFS) on real timers with a virtual clock vs. exactly-once reference",
+   text="Every history up to depth 5 (thorough 6; merged-state BFS to depth 7/9) of start/observe_duration/stop_and_record/stop_and_discard/drop/drop-on-other-thread/observe_closure_duration over <=3 timers of a shared and of a local histogram, interleaved with forward and backward steps of a virtual clock, is replayed on the real code; after every step the histogram must have grown by exactly one observation of max(now-start,0) or by none.",
+   note="clock is the verif time seam; coarse clock (nightly feature) not built", ref="6 C18"),
 }
 
 NOT_YET = "check not built yet in this round; planned per DESIGN.md section 6"
